@@ -298,9 +298,8 @@ func main() {
 						case *ast.SliceExpr:
 							add("slice", x)
 						case *ast.TypeAssertExpr:
-							if x.Type != nil {
-								add("typeassert", x)
-							}
+							// type assertions are not listed here: they are classified by the
+							// whole-program pass (oracle-only: no model of the producers of the operand)
 						case *ast.CallExpr:
 							switch exprText(fset, x.Fun) {
 							case "panic":
